@@ -235,6 +235,15 @@ TEMPLATES = [
     "def t(k):\n    print('t', k)\n    return k\nif t(0) or {E}:\n    print('yes')\nelse:\n    print('no')\n",
     "y = 5\nif not ({E}):\n    y = 6\nprint(y)\n",
 ]
+# loops over constant iterables: whether the loop body is entered is a constant question too (an empty lazy iterator is a truthy object)
+ITER_TEMPLATES = [
+    "def f():\n    for x in {E}:\n        return ('in', x)\n    return 'after'\nprint(f())\n",
+    "def f():\n    for x in {E}:\n        print('body', x)\n        break\n    else:\n        return 'exhausted'\n    return 'broke'\nprint(f())\n",
+    "def f():\n    while True:\n        for x in {E}:\n            return x\n        break\n    return 'tail'\nprint(f())\n",
+]
+CONSTANT_ITERABLES = ["[]", "()", "''", "range(0)", "iter([])", "zip()", "zip([], [])", "reversed([])", "map(str, [])", "filter(None, [])", "enumerate([])", "iter(())", "{}.items()", "sorted([])",
+                      "[1]", "iter([1])", "zip([1], [2])", "reversed([1, 2])", "map(str, [3])", "filter(None, [0, 4])", "filter(None, [0])", "enumerate('x')", "range(2, 1)", "range(1, 2)", "dict(a=1)",
+                      "iter('')", "reversed('')", "zip('ab')", "[[]]", "[None]", "(0,)"]
 
 
 FOLDING_CONSUMERS = {"fixes.remove_dead_ifs", "fixes.delete_unreachable_code", "fixes.remove_redundant_boolop_values",
@@ -358,6 +367,7 @@ def main() -> int:
         pool_exprs = depth1()[:] + METHOD_CALLS + KEYWORD_CALLS + EFFECTFUL + random_deeper(2000, "cons")
         n_cons = 12000 if thorough else 1600
         cases = [{"expr": r.choice(pool_exprs), "template": TEMPLATES[i % len(TEMPLATES)]} for i in range(n_cons)]
+        cases += [{"expr": e, "template": t} for e in CONSTANT_ITERABLES for t in ITER_TEMPLATES]
         reps = p.map("harness.checks.c15:w_consumer", [{"cases": cases[i:i + 6]} for i in range(0, len(cases), 6)], cpu_s=600)
         verdict.pool_failures(v, reps, "C15 consumer")
         for rep in reps:
